@@ -588,3 +588,14 @@ RUN_SCHEDULE = Contract(
          "edges, producers first) re-establishes consistency of every definition, given consistency of the tasks outside the "
          "schedule, the index invariant, the heap frame axioms and Acyc")
 VARIANTS += [RUN_SCHEDULE]
+
+
+# ----------------------------------------------------------------------------- Manager.copy: no state shared with the original   (C02, C12)
+from pyvc.writeset import FieldCopyEngine      # noqa: E402
+
+MGR_COPY = Contract(module=M, qualname="Manager.copy", params={}, min_obligations=8,
+                    extra=dict(engine=FieldCopyEngine, variant="independent-copy"),
+                    note="every container field the constructor creates (tasks, containers and the four indices) is stored once on the new manager, as "
+                         "deepcopy(self.<field>): editing the copy cannot change what an assignment in the original schedules (seed C02-13: two indices "
+                         "copied shallowly shared their per-reference multisets)")
+VARIANTS += [MGR_COPY]
